@@ -1,8 +1,251 @@
-import EdpVerif.Drv.Common
-namespace Edp.Drv
+import EdpVerif.Drv.Etf
+import EdpVerif.Impl.Send
+import EdpVerif.Spec.Wire
+/-! Driver requests of property C07 (send side).
 
-/-- driver requests of property C07 (stub: nothing handled yet) -/
+Operation text (no spaces): fields separated by `;`
+  `S;<from pid>;<to pid>;<msg term>`   `R;<from pid>;<name hex|->;<msg term>`   `L;<from>;<to>`
+  `U;<from>;<to>;<id|?>`               `M;<from>;<to>;<ref>`                    `D;<from>;<to>;<ref>`
+(pids, refs and terms in the canonical term text).  Operations of one task are joined by `/`, tasks by `~`.
+
+* `c07send state neg stream order op`  — tie: the writes of one `Connection` operation, `ok <bytes> w=<number of writes>` or
+                                          `err:<class>`; `state` as `ConnectionState::as_str`, `neg` the negotiated flags or `-`,
+                                          `order` the header's atom order (`-` none, `*` first-occurrence order, else `x<hex>,..`)
+* `c07read mode wire op`               — oracle: the independent reader reads `wire` as exactly the frame the protocol assigns to `op`
+* `c07none wire`                       — oracle: nothing was written
+* `c07trace neg prog trace wire`       — tie under concurrency: the recorded hook trace (`<task>.<l|m|c|e>` joined by `,`) is a run of
+                                          the lock/write model and produces exactly `wire`
+* `c07wire prog wire`                  — oracle under concurrency: `wire` is whole frames, each task's operations in issue order,
+                                          unlink ids chosen by the node valid and distinct
+-/
+namespace Edp.Drv
+namespace C07
+open Edp Edp.Send Edp.Spec.Wire
+open Edp.Impl.Handshake (ConnState)
+
+def getPid (s : String) : Except String PidF :=
+  match Term.ofText s with
+  | some (.pid p) => .ok p
+  | _ => .error ("bad-pid " ++ s.take 40)
+
+def getRef (s : String) : Except String RefF :=
+  match Term.ofText s with
+  | some (.ref n c ids l) => .ok { node := n, creation := c, ids := ids, loc := l }
+  | _ => .error ("bad-ref " ++ s.take 40)
+
+def getNat (s : String) : Except String Nat :=
+  match s.toNat? with
+  | some n => .ok n
+  | none => .error ("bad-nat " ++ s.take 40)
+
+def getHexArg (s : String) : Except String Bytes := if s == "-" then .ok [] else getHex s
+
+/-- `none` for the id of an unlink whose id the node chose (`?`) -/
+def getOp (s : String) : Except String (Op × Bool) :=
+  match s.splitOn ";" with
+  | ["S", f, t, m] => do pure (.send (← getPid f) (← getPid t) (← getTerm m), false)
+  | ["R", f, n, m] => do pure (.regSend (← getPid f) (← getHexArg n) (← getTerm m), false)
+  | ["L", f, t] => do pure (.link (← getPid f) (← getPid t), false)
+  | ["U", f, t, i] =>
+    if i == "?" then do pure (.unlink (← getPid f) (← getPid t) 0, true)
+    else do pure (.unlink (← getPid f) (← getPid t) (← getNat i), false)
+  | ["M", f, t, r] => do pure (.monitor (← getPid f) (← getPid t) (← getRef r), false)
+  | ["D", f, t, r] => do pure (.demonitor (← getPid f) (← getPid t) (← getRef r), false)
+  | _ => .error ("bad-op-text " ++ s.take 40)
+
+def getState (s : String) : Except String ConnState :=
+  match s with
+  | "disconnected" => .ok .disconnected
+  | "connecting" => .ok .connecting
+  | "sending_name" => .ok .sendingName
+  | "awaiting_status" => .ok .awaitingStatus
+  | "awaiting_challenge" => .ok .awaitingChallenge
+  | "sending_challenge_reply" => .ok .sendingChallengeReply
+  | "awaiting_challenge_ack" => .ok .awaitingChallengeAck
+  | "connected" => .ok .connected
+  | "failed" => .ok .failed
+  | _ => .error ("bad-state " ++ s)
+
+def opTerms (op : Op) : List Term :=
+  match Control.toTerm Gen.controlTable op.control with
+  | some ct => ct :: op.payload.toList
+  | none => []
+
+def getOrder (s : String) (op : Op) : Except String (List Bytes) :=
+  if s == "-" then .ok []
+  else if s == "*" then .ok (collectAtomsL (opTerms op)).eraseDups
+  else (s.splitOn ",").mapM fun a =>
+    match a.toList with
+    | 'x' :: h => getHex (String.ofList h)
+    | _ => .error "bad-order"
+
+def errText : Err → String
+  | .invalidState => "err:state"
+  | .encode => "err:encode"
+  | .tooLarge => "err:toolarge"
+  | .noStream => "err:nostream"
+  | .badControl => "model:bad-control"
+  | .badOrder => "model:bad-order"
+
+def getMode (s : String) : Except String Mode :=
+  if s == "pt" then .ok .passThrough else if s == "hdr" then .ok .distHeader else .error "bad-mode"
+
+/-- control element `k` of the first frame of `bs` as a natural number (the id of an UNLINK_ID) -/
+def firstId (bs : Bytes) : Option Nat :=
+  match rdN 4 bs with
+  | some (len, r) =>
+    match takeN len r with
+    | some (body, _) =>
+      match readBody .passThrough [] body with
+      | some (.msg (.tuple (_ :: .int i :: _)) _, _) => if 0 ≤ i then some i.toNat else none
+      | _ => none
+    | none => none
+  | none => none
+
+def withId : Op → Nat → Op
+  | .unlink f t _, i => .unlink f t i
+  | op, _ => op
+
+def getProg (s : String) : Except String (List (List (Op × Bool))) :=
+  if s == "-" then .ok [] else
+  (s.splitOn "~").mapM fun t => if t == "-" then .ok [] else (t.splitOn "/").mapM getOp
+
+/-- replay of a hook trace through the lock/write model; operations are instantiated lazily so that an unlink id chosen by
+the node can be read off the wire at the position where its frame starts -/
+structure Rp where
+  wire : Bytes := []
+  lock : Option Nat := none
+  /-- per task: index of the next operation, remaining writes when holding, writes done in the current operation -/
+  next : List Nat
+  rem : List (Option (List Bytes))
+  done : List Nat
+  frames : Nat := 0
+
+def point (c : Char) : Option Nat :=
+  if c == 'l' then some 1 else if c == 'm' then some 2 else if c == 'c' then some 3 else none
+
+def replay (conn : Conn) (prog : List (List (Op × Bool))) (real : Bytes) (evs : List (Nat × Char)) : Except String Rp := do
+  let mut st : Rp := { next := prog.map fun _ => 0, rem := prog.map fun _ => none, done := prog.map fun _ => 0 }
+  for (t, c) in evs do
+    if t ≥ prog.length then throw "FAIL unknown-task"
+    -- acquire if the task is not in an operation
+    if (st.rem.getD t none).isNone then
+      match st.lock with
+      | some h => throw s!"FAIL task {t} writes while task {h} holds the connection"
+      | none =>
+        match (prog.getD t [])[st.next.getD t 0]? with
+        | none => throw s!"FAIL task {t} has no operation left"
+        | some (op, unknownId) =>
+          let op ← if unknownId then
+              match firstId (real.drop st.wire.length) with
+              | some i => pure (withId op i)
+              | none => throw "FAIL no-unlink-frame-at-this-position"
+            else pure op
+          match sendOp conn [] op with
+          | .ok ws => st := { st with lock := some t, rem := st.rem.set t (some ws), done := st.done.set t 0 }
+          | .error e => throw ("FAIL model-op-fails " ++ errText e)
+    if st.lock != some t then throw s!"FAIL task {t} is not the holder"
+    let ws := (st.rem.getD t none).getD []
+    match point c with
+    | some k =>
+      -- the hook point after write number k: exactly one more write, and it must be write k
+      if st.done.getD t 0 + 1 != k then throw s!"FAIL task {t} point {c} after {st.done.getD t 0} writes"
+      match ws with
+      | w :: r => st := { st with wire := st.wire ++ w, rem := st.rem.set t (some r), done := st.done.set t k }
+      | [] => throw s!"FAIL task {t} point {c} but the model has no write left"
+    | none =>
+      -- end of the operation: the remaining writes (exactly one: the last write has no hook point after it), then unlock
+      if ws.length != 1 then throw s!"FAIL task {t} ends with {ws.length} writes left"
+      st := { st with wire := st.wire ++ ws.flatten, lock := none, rem := st.rem.set t none,
+                      next := st.next.set t (st.next.getD t 0 + 1), frames := st.frames + 1 }
+  pure st
+
+def getTrace (s : String) : Except String (List (Nat × Char)) :=
+  if s == "-" then .ok [] else
+  (s.splitOn ",").mapM fun e =>
+    match e.splitOn "." with
+    | [t, p] =>
+      match t.toNat?, p.toList with
+      | some n, [c] => .ok (n, c)
+      | _, _ => .error "bad-trace"
+    | _ => .error "bad-trace"
+
+/-- greedy attribution of the items read off the wire to the tasks' expected lists (the items of different tasks are
+distinct by construction of the harness) -/
+def attributeItems (exp : List (List (SOp × Bool))) (items : List Item) : Except String (List Nat) := do
+  let mut exp := exp
+  let mut ids : List Nat := []
+  for it in items do
+    let mut found := false
+    for t in List.range exp.length do
+      if !found then
+        match exp.getD t [] with
+        | (sop, unknownId) :: rest =>
+          let sop' := match unknownId, sop, it with
+            | true, .unlinkId _ f to, .msg (.tuple [_, .int i, _, _]) _ => if 0 ≤ i then SOp.unlinkId i.toNat f to else sop
+            | _, _, _ => sop
+          if Item.same it (itemFor sop') then
+            if !sop'.valid && unknownId then throw ("FAIL node-chosen-unlink-id-out-of-range " ++ it.text)
+            if unknownId then
+              match sop' with
+              | .unlinkId i _ _ => ids := i :: ids
+              | _ => pure ()
+            exp := exp.set t rest
+            found := true
+        | [] => pure ()
+    if !found then throw ("FAIL frame-out-of-order-or-unexpected " ++ it.text)
+  if exp.any (fun l => !l.isEmpty) then throw "FAIL operations-missing-from-the-wire"
+  pure ids
+
+end C07
+
+open C07 Edp.Send Edp.Spec.Wire in
 def handleC07 : List String → Option String
+  | ["c07send", state, neg, stream, order, op] => some <| run do
+    let state ← getState state
+    let neg ← if neg == "-" then pure none else (some <$> getNat neg)
+    let (op, _) ← getOp op
+    let order ← getOrder order op
+    let conn : Conn := { state := state, neg := neg, stream := stream == "1" }
+    match sendOp conn order op with
+    | .ok ws => pure ("ok " ++ hexOf ws.flatten ++ " w=" ++ toString ws.length)
+    | .error e => pure (errText e)
+  | ["c07read", mode, wire, op] => some <| run do
+    let mode ← getMode mode
+    let wire ← getHexArg wire
+    let (op, _) ← getOp op
+    match readFrames mode wire with
+    | none => pure "FAIL not-a-sequence-of-well-formed-frames"
+    | some [it] =>
+      if Item.same it (itemFor op.den) then pure "ok"
+      else pure ("FAIL read " ++ it.text ++ " expected " ++ (itemFor op.den).text)
+    | some l => pure ("FAIL " ++ toString l.length ++ " frames")
+  | ["c07none", wire] => some <| run do
+    let wire ← getHexArg wire
+    pure (if wire.isEmpty then "ok" else "FAIL bytes-written " ++ hexOf wire)
+  | ["c07trace", neg, prog, trace, wire] => some <| run do
+    let neg ← if neg == "-" then pure none else (some <$> getNat neg)
+    let prog ← getProg prog
+    let trace ← getTrace trace
+    let wire ← getHexArg wire
+    let conn : Conn := { state := .connected, neg := neg, stream := true }
+    match replay conn prog wire trace with
+    | .error e => pure e
+    | .ok st =>
+      if st.lock.isSome then pure "FAIL trace-ends-inside-an-operation"
+      else if st.wire != wire then pure ("FAIL model-wire " ++ hexOf st.wire)
+      else pure ("ok frames=" ++ toString st.frames)
+  | ["c07wire", prog, wire] => some <| run do
+    let prog ← getProg prog
+    let wire ← getHexArg wire
+    match readFrames .passThrough wire with
+    | none => pure "FAIL not-a-sequence-of-well-formed-frames"
+    | some items =>
+      match attributeItems (prog.map fun l => l.map fun (op, u) => (op.den, u)) items with
+      | .error e => pure e
+      | .ok ids =>
+        if ids.eraseDups.length != ids.length then pure "FAIL node-chosen-unlink-ids-repeat"
+        else pure ("ok frames=" ++ toString items.length)
   | _ => none
 
 end Edp.Drv
